@@ -4,12 +4,14 @@ use crate::core::*;
 use mcmc_sim::sim::{ClockProfile, Sched, SimConfig};
 use serde_json::{json, Value};
 
+pub mod c01;
+pub mod c05;
 pub mod c07;
 pub mod c09;
 pub mod c10;
 
 pub fn all() -> Vec<PropertyDef> {
-    vec![c07::def(), c09::def(), c10::def()]
+    vec![c01::def(), c05::def(), c07::def(), c09::def(), c10::def()]
 }
 
 // ---- shared: simulation parameters <-> JSON ---------------------------------------------------
